@@ -50,7 +50,7 @@ def zero_send_sites(prog, world, sem):
 
 def run(prog, world, sem, rep):
     rep.rule("C17.a", "every BankMsg::Send and every non-empty `funds` in the workspace carries a coin amount that is reachable only "
-             "through an edge on which that same value was observed non-zero (obligation lifted to callers for helper parameters)", 9)
+             "through an edge on which that same value was observed non-zero (obligation lifted to callers for helper parameters)", 7)
     rep.rule("C17.b", "keeper transfer amount = (queried own balance of denom D) x Config.krp_keeper_rate, sent in D to Config.krp_keeper_address", 2)
     rep.rule("C17.c", "the forwarded share is balance(D) - keeper(D) of the same D: bSei share sent to Config.bsei_reward_contract, stSei "
              "share attached as funds of BondRewards to Config.hub_contract (nothing retained)", 2)
@@ -78,7 +78,7 @@ def run(prog, world, sem, rep):
             ok, d = site_guarded(sem, vis, bb, fp)
             rep.ob("C17.a", "%s %s{to=%s, denom=%s}" % (vis.body.path, kind, lab_short(to), lab_short(dl)), ok,
                    "coin amount %s is not checked to be non-zero before the transfer is emitted (%s)" % (show(aid, 4), d) if not ok else d,
-                   where(vis.body, bb), key=key)
+                   where(vis.body, bb), key=key, fkey="%s{to=%s, denom=%s}" % (kind, lab_short(to), lab_short(dl)))
 
     # ---------------------------------------------------------------- C17.b/c/d: DispatchRewards
     ex = entry(prog, "dispatcher")
